@@ -77,10 +77,20 @@ def run(ctx):
         if mk.ok or mk.violated != "MutantKindInv":
             raise vlib.Infra("spec mutant ~M_AllDocumentKindsFiltered was not rejected by TLC (%s)\n%s" %
                              (mk.violated, mk.out[-1500:]))
+        # two plugin instances with interleaved buffer operations: as the code is (own buffers) must pass,
+        # the mutant "instances share the backing arrays" must be rejected
+        ctx.tlc_expect_ok("FieldSelect", "FieldSelect_instances.cfg", timeout=600, deadlock=False,
+                          name="two instances, all interleavings of buffer operations (must pass)")
+        mi = ctx.tlc("FieldSelect", "FieldSelect_mutant_instances.cfg", timeout=600, deadlock=False,
+                     name="mutant instances share the backing arrays (must be rejected)")
+        if mi.ok or mi.violated != "InstInv":
+            raise vlib.Infra("spec mutant ~M_BuffersPerInstance was not rejected by TLC (%s)\n%s" %
+                             (mi.violated, mi.out[-1500:]))
         cex = re.search(r"State 2:.*?\n(.*?)\n\s*\n", mut.out, re.S)
         ctx.extra["spec_mutants_rejected"] = ["M_DepthBuffersDisjoint=FALSE: " +
                                               (" ".join(cex.group(1).split())[:700] if cex else "?"),
-                                              "M_AllDocumentKindsFiltered=FALSE: MutantKindInv violated"]
+                                              "M_AllDocumentKindsFiltered=FALSE: MutantKindInv violated",
+                                              "M_BuffersPerInstance=FALSE: InstInv violated"]
         total = len(cases)
         ctx.extra["documents"] = docs
         ctx.rng.shuffle(cases)          # the whole exported scope is replayed in both tiers; the seed orders it
@@ -169,6 +179,9 @@ def run(ctx):
         "(> 16 members) is not exercised",
         "time-out / unlock events (nil Root) are outside the property; child events are built as processor.Spawn builds them "
         "(direct) or by the real split action on a running single-processor pipeline (sampled)",
+        "concurrency of plugin instances is bound by a timed concurrent run (Do cannot be split): N = min(8, max(4, GOMAXPROCS)) "
+        "instances from one Config, overlap measured; the two-instance TLC model interleaves at the granularity of buffer "
+        "operations (append / delete loop / reset)",
         "selector strings use the documented backslash escape only (the undocumented '..' form of ParseFieldSelector is "
         "transcribed in the spec but not driven)",
     ]
